@@ -4557,9 +4557,21 @@ static WBXMLError xml_encode_text(WBXMLEncoder *encoder, WBXMLTreeNode *node)
     WB_ULONG i = 0;
 
     if (encoder->in_cdata) {
-        /* If we are in a CDATA section, do not modify the text to encode */
-        if (!wbxml_buffer_append(encoder->output, str))
-            return WBXML_ERROR_ENCODER_APPEND_DATA;
+        /* If we are in a CDATA section, do not modify the text to encode...
+         * except that "]]>" inside the text must not terminate the section:
+         * it is split over two sections ("]]" + "]]><![CDATA[" + ">") */
+        const WB_UTINY *text = wbxml_buffer_get_cstr(str);
+        WB_ULONG text_len = wbxml_buffer_len(str), j = 0;
+
+        for (j = 0; j < text_len; j++) {
+            if ((text[j] == ']') && (j + 2 < text_len) && (text[j + 1] == ']') && (text[j + 2] == '>')) {
+                if (!wbxml_buffer_append_cstr(encoder->output, "]]]]><![CDATA[>"))
+                    return WBXML_ERROR_ENCODER_APPEND_DATA;
+                j += 2;
+            }
+            else if (!wbxml_buffer_append_char(encoder->output, text[j]))
+                return WBXML_ERROR_ENCODER_APPEND_DATA;
+        }
     }
     else {
         /* Work with a temporary copy */
